@@ -99,7 +99,7 @@ def _targets():
         cmds=lambda out: ['%s -fsanitize=address,undefined -fno-sanitize-recover=undefined %s %s -lrapidcheck -o %s/c02'
                           % (RC, _s('c02_lockstep.cpp')[0], _r('hex.cpp')[0], out)])
     t['c12fill'] = dict(
-        deps=CXX_HDRS + _r('hex.cpp') + _s('c12_fill.cpp', 'refisa.hpp', 'vjson.hpp'),
+        deps=CXX_HDRS + _r('hex.cpp') + _s('c12_fill.cpp', 'refisa.hpp', 'vjson.hpp', 'fillnew.hpp'),
         cmds=lambda out: ['%s %s %s -o %s/c12fill' % (RC, _s('c12_fill.cpp')[0], _r('hex.cpp')[0], out)])
     # Verilated models with public flat access.
     PV = _r('verilog/processor.v')
